@@ -47,6 +47,26 @@ impl log4rs::append::Append for ScriptedAppender {
     }
 }
 
+/// A `log::Log` implementor attached through the blanket `impl<T: Log> Append for T`.  Its own `enabled()` says no:
+/// whether a record is delivered is the filter chain's decision alone (Fanout.tla: Delivered has no sink argument).
+#[derive(Debug)]
+struct LogSink {
+    n: Arc<AtomicUsize>,
+    flushes: Arc<AtomicUsize>,
+}
+
+impl log::Log for LogSink {
+    fn enabled(&self, _m: &log::Metadata) -> bool {
+        false
+    }
+    fn log(&self, _r: &log::Record) {
+        self.n.fetch_add(1, Ordering::SeqCst);
+    }
+    fn flush(&self) {
+        self.flushes.fetch_add(1, Ordering::SeqCst);
+    }
+}
+
 fn obj_keys_sorted(v: &Value) -> Vec<(usize, &Value)> {
     if let Some(a) = v.as_array() {
         return a.iter().enumerate().map(|(i, x)| (i + 1, x)).collect();
@@ -113,7 +133,12 @@ fn check_case(case: &Value, style: usize) -> Option<Value> {
             }
         }
         let fail = at(&case["outc"], *a) == "Err";
-        b = b.appender(ab.build(a.to_string(), Box::new(ScriptedAppender { n, fail, flushes: fl })));
+        let sink: Box<dyn log4rs::append::Append> = if !fail && (style / 4 + *a) % 3 == 1 {
+            Box::new(LogSink { n, flushes: fl })
+        } else {
+            Box::new(ScriptedAppender { n, fail, flushes: fl })
+        };
+        b = b.appender(ab.build(a.to_string(), sink));
     }
     let mut rb = log4rs::config::Root::builder();
     for a in case["att"].as_array().unwrap() {
